@@ -60,6 +60,10 @@ def parse_attr(attr):
             d["map"] = (k, v)
         elif p.startswith("packed"):
             d["packed"] = re.search(r'"([^"]+)"', p).group(1) == "true"
+        elif p.startswith("default"):
+            # an explicit default: prost omits the field when it holds this value and assumes it when absent (proto3
+            # fields have no explicit defaults: the bindings must not carry one)
+            d["default"] = re.search(r'"([^"]*)"', p).group(1)
         else:
             raise TranslateError("unknown prost attribute part %r in %r" % (p, attr))
     if "kind" not in d:
@@ -247,6 +251,7 @@ def translate_package(files, file_to_mod, proto_name_of_mod=None):
         items.append((rp, fq, kind, modpath + mods, body, path))
     messages = {}; enums = {}; oneofs = {}
     nfields = 0
+    explicit_defaults = []
     for rp, fq, kind, scope, body, path in items:
         if kind == "Enumeration":
             vals = re.findall(r'(\w+)\s*=\s*(-?\d+)\s*,', body)
@@ -258,6 +263,8 @@ def translate_package(files, file_to_mod, proto_name_of_mod=None):
         fl = []
         for attr, name, ty in fields:
             f = {"name": name, "kind": attr["kind"], "label": attr["label"]}
+            if "default" in attr:
+                explicit_defaults.append({"message": fq, "field": name, "tag": attr.get("tag"), "kind": attr["kind"], "default": attr["default"]})
             if attr["kind"] == "oneof":
                 f["tags"] = attr["tags"]; f["oneof_rust"] = resolve_rel(attr["oneof"], scope)
             else:
@@ -320,7 +327,7 @@ def translate_package(files, file_to_mod, proto_name_of_mod=None):
                     g["ref"] = ref_fq(g.pop("ref_rust"))
                 out.append(g)
         m["fields"] = out
-    return messages, enums, {"messages": len(messages), "enums": len(enums), "oneofs": len(oneofs), "fields": nfields, "oneof_anomalies": anomalies}
+    return messages, enums, {"messages": len(messages), "enums": len(enums), "oneofs": len(oneofs), "fields": nfields, "oneof_anomalies": anomalies, "explicit_defaults": explicit_defaults}
 
 
 def resolve_rel(path, scope):
@@ -508,7 +515,9 @@ def generate(model, outdir):
     tables = hdr + "From Coq Require Import String List.\nImport ListNotations.\n" \
         + "Definition gen_type_urls : list (string * string * string) := [\n" + ";\n".join(tu) + "\n]%string.\n\n" \
         + "Definition gen_modtree : list (string * string) := [\n" + ";\n".join(mt) + "\n]%string.\n\n" \
-        + "Definition gen_enum_first : list (string * N) := [\n" + ";\n".join(en) + "\n]%string.\n"
+        + "Definition gen_enum_first : list (string * N) := [\n" + ";\n".join(en) + "\n]%string.\n\n" \
+        + "Definition gen_explicit_defaults : list (string * string * string) := [\n" \
+        + ";\n".join("  (%s, %s, %s)" % (cq(x["message"]), cq(x["field"]), cq(x["default"])) for x in model["stats"].get("explicit_defaults", [])) + "\n]%string.\n"
     changed |= write_if_changed(os.path.join(outdir, "ProtoTables.v"), tables)
     changed |= write_if_changed(os.path.join(VERIF, "harness", "src", "proto_registry.rs"), rust_registry(model))
     return {"changed": changed, "messages": len(gen), "reference": len(ref), "shared": len(set(gen) & set(ref)), "type_urls": len(tu), "modtree": len(mt)}
